@@ -35,8 +35,9 @@ fi
 for d in "${demos[@]}"; do rm -rf "$sv/$d"; done
 suite=ok; (cd "$sv" && go test -vet=off -count=1 -timeout 25m ./... > "$out/suite.log" 2>&1) || suite=fail
 git -C /repo worktree remove --force "$sv"
-# --- /verif checks against /repo + patch
+# --- /verif checks against /repo + patch (serialised with a lock: /repo is shared)
 checks=""
+exec 9>/tmp/seedout/.repo.lock; flock 9
 if git -C /repo apply --check "$patch" 2>/dev/null && git -C /repo diff --quiet; then
   git -C /repo apply "$patch"
   PVCHECK_OUT=/tmp/seedout/$id/ev /verif/check all quick > "$out/checks.log" 2>&1
